@@ -7,7 +7,9 @@
 //! Provides:
 //! - a seeded replacement for the thread RNG (one distinct, deterministic
 //!   stream per call, so independent call sites stay independent), and
-//! - a read-only, thread-local log of the finalization events a pool processed.
+//! - a read-only, thread-local log of the finalization events a pool processed, and
+//! - scheduling points ahead of lock acquisitions of state shared between caller threads,
+//!   at which a harness-installed callback may park the calling thread.
 //!
 //! All state is thread-local: the harness runs one simulated execution per OS thread.
 
@@ -18,7 +20,11 @@ use rand::prelude::*;
 use crate::crypto::merkle::BlockHash;
 use crate::{Slot, ValidatorIndex};
 
+/// Callback run at a scheduling point; gets the name of the site.
+pub type SchedHook = Box<dyn Fn(&'static str)>;
+
 thread_local! {
+    static SCHED_HOOK: RefCell<Option<SchedHook>> = const { RefCell::new(None) };
     static RNG_STATE: RefCell<(u64, u64)> = const { RefCell::new((0, 0)) };
     static FIN_LOG: RefCell<Vec<FinalizationRecord>> = const { RefCell::new(Vec::new()) };
 }
@@ -74,4 +80,21 @@ pub(crate) fn record_finalization(node: ValidatorIndex, kind: FinalizationKind) 
 /// Takes (and clears) this thread's finalization log.
 pub fn take_finalization_log() -> Vec<FinalizationRecord> {
     FIN_LOG.with(|l| std::mem::take(&mut *l.borrow_mut()))
+}
+
+/// Installs (or removes) this thread's scheduling-point callback.
+pub fn set_sched_hook(hook: Option<SchedHook>) {
+    SCHED_HOOK.with(|h| *h.borrow_mut() = hook);
+}
+
+/// Marks a point where the calling thread is about to touch state shared with other threads.
+///
+/// Does nothing unless a callback was installed on this thread.
+/// Must never be called while holding a lock.
+pub(crate) fn sched_point(site: &'static str) {
+    SCHED_HOOK.with(|h| {
+        if let Some(f) = h.borrow().as_ref() {
+            f(site);
+        }
+    });
 }
